@@ -560,6 +560,50 @@ def rule_first(ctx, rep):
 REVERSE_SEARCH = ("rfind", "rsplit", "rsplit_once", "rsplitn", "rmatches", "rmatch_indices", "rsplit_terminator", "last", "next_back", "rposition", "rev")
 
 
+def rule_optsense(ctx, rep, rid="R-C03-optsense"):
+    """An option named `allow_x` switches a diagnostic *off* when it is set.  Where the parser tests such an option, the problems are
+    constructed on the branch where the option is false and not on the branch where it is true (an inverted test silences the rule for
+    everyone who did not ask for that)."""
+    from vlib.mir import switch_info
+    r = rep.rule(rid, "an `allow_*` option is tested in the right sense: problems are built where the option is false, none where it is true",
+                 floor=1, floor_what="tests of allow_* options")
+    for b in sorted(ctx.prog.bodies.values(), key=lambda x: x.id):
+        if b.f["crate"] not in ("ironplc_parser", "ironplc_analyzer") or "::test" in norm(b.id):
+            continue
+        diag_bbs = {c.bb for c in b.calls() if (c.callee or "").endswith("Diagnostic::problem")}
+        for i in sorted(b.reachable(0)):
+            si = switch_info(b, i)
+            if not si or si["kind"] != "bool" or si["subject"][0] != "place":
+                continue
+            fs = [x for x in b.root(si["subject"][1])[1] if isinstance(x, list) and x[0] == "f"]
+            neg = False
+            if not fs:
+                # `!options.allow_x`: the switch is on the negation
+                d = b.single_def(si["subject"][1][0]) if not si["subject"][1][1] else None
+                if d and d[0] == "stmt" and d[3][0] == "un" and d[3][1] == "Not":
+                    ip = op_place(d[3][2])
+                    fs = [x for x in (b.root(ip)[1] if ip is not None else []) if isinstance(x, list) and x[0] == "f"]
+                    neg = True
+            if not fs or not fs[-1][2].startswith("allow_"):
+                continue
+            t_edge = [s_ for s_, l in si["edges"].items() if l == [True]]
+            f_edge = [s_ for s_, l in si["edges"].items() if l == [False]]
+            if not t_edge or not f_edge:
+                continue
+            allowed, denied = (f_edge[0], t_edge[0]) if neg else (t_edge[0], f_edge[0])
+            reg_allowed = b.reachable(allowed, avoid={denied})
+            reg_denied = b.reachable(denied, avoid={allowed})
+            inst = "%s|%s" % (norm(b.id).split("::")[-2] + "::" + norm(b.id).split("::")[-1], fs[-1][2])
+            where = "%s:%d" % (b.f["file"], b.f["line"])
+            if (reg_allowed - reg_denied) & diag_bbs:
+                r.finding(inst + "|inverted", where, "problems are built on the branch where `%s` is set, and the branch where it is not set returns without looking: the diagnostic is "
+                          "never produced for users who did not set the option" % fs[-1][2])
+            elif not (reg_denied & diag_bbs):
+                r.finding(inst + "|no-diagnostic", where, "no problem is built on the branch where `%s` is not set" % fs[-1][2])
+            else:
+                r.ok(inst, where, "diagnostics only where the option is not set")
+
+
 def rule_firstend(ctx, rep, rid="R-C03-firstend"):
     """The preprocessor blanks the text between a start marker and an end marker before the lexer sees it: whatever lies in between is never
     diagnosed.  The region must end at the first end marker.  A search from the back (rfind, rsplit_once, ...) makes the region run to
@@ -609,6 +653,7 @@ def run(ctx, rep):
     from rules.c11 import rule_cache
     rule_cache(ctx, rep, rid="R-C03-cache")
     rule_firstend(ctx, rep)
+    rule_optsense(ctx, rep)
     rule_dupreport(ctx, rep)
     # an error in a use that names its enumeration must not be cured by an unrelated enumeration
     from rules.c02_enum import run_exact
